@@ -24,7 +24,7 @@ PROP = "C20"
 LEVEL = "exploration"
 RULE = ("index space split round-robin over 8 parts: C01 generator lite->full / full->lite / lite<->lite (payload lengths 1..32), C02 "
         "generator incl. its enumerated fate vectors with a lite transmitter (full or lite peer), C08 sweep over the lite alphabet "
-        "(depth 4 quick / 5 thorough), C10 histories on a lite UUT, seeded configuration histories against an inline reference "
+        "(complete to depth 4 quick / depth 5 thorough), C10 histories on a lite UUT, seeded configuration histories against an inline reference "
         "encoder, and the load_ack grid (every length 0..34 x pipe -1..6 x FIFO fill 0..3 x cached status fresh/stale). Non-trivial and distinct as in the "
         "re-used checks")
 ASSUMPTIONS = ["as C01, C02, C08, C10", "the lite driver always sits on an nRF24L01+ (documented: not compatible with non-plus variants)", "lite write() documents ValueError outside 1..32 bytes in both payload-length modes"]
@@ -37,8 +37,11 @@ NPARTS = 8
 GRID = [(n, p, f, fresh) for n in list(range(0, 35)) for p in range(-1, 7) for f in range(4) for fresh in (1, 0)]
 
 
+C08_EXTRA = 5400     # quick: completes the depth-4 level of the lite pipe-0 sweep (9 + 81 + 729 + 6561 sequences)
+
+
 def count(tier):
-    return 16000 if tier == "quick" else 160000
+    return 16000 + C08_EXTRA if tier == "quick" else 160000
 
 
 def exhaustive(tier):
@@ -48,6 +51,8 @@ def exhaustive(tier):
 def make(i, base_seed, tier):
     part, j = i % NPARTS, i // NPARTS
     seed = base_seed * 1_000_003 + i
+    if tier == "quick" and i >= 16000:
+        part, j = 4, 2000 + (i - 16000)
     if part in (0, 1, 2):
         scn = c01.make(j + 5000 * part, base_seed, "quick")
         lt, lr = [(True, False), (False, True), (True, True)][part]
